@@ -41,6 +41,7 @@ ASSUMPTIONS = ["copy.deepcopy, dict displays with ** and dict methods have their
 TECHNIQUE = "exhaustive abstract interpretation of the option merge over provenance tokens, compared with an executable model of the documentation; writer/reader table agreement"
 EXPLANATION += (' ' + '(R14.10) the functions that resolve options and modes (init_options, _iteration_check, _mode_check, set_user_pf_options, get_net_option(s)) keep no state between calls: no memoising decorator, no module-level container changed, no global rebound -- a deprecated value is mapped every time, not only the first.')
 EXPLANATION += (' ' + '(R14.5) the documented defaults of init_options equal default_options, and every option name the package reads -- get_net_option(s), options[name] and, since round 7, options.get(name, fallback) -- is a defined option: a consumer that reads a name no layer defines never sees the value the precedence picked. (R14.6) set_user_pf_options: reset empties the stored layer first, the keyword arguments are stored as given.')
+EXPLANATION += (' ' + '(R14.11) in the functions reachable from pipeflow, outside the merge itself, nothing writes into the resolved options (set_net_option, item stores) except the damping factor alpha, and no name bound from get_net_option(s) is bound again in its function.')
 
 STAGE_KEYS = ("max_iter_hyd", "max_iter_therm", "max_iter_bidirect")
 
